@@ -5,6 +5,7 @@ import (
 	"encoding/hex"
 	"fmt"
 	"net"
+	"os"
 	"testing"
 	"time"
 
@@ -24,6 +25,10 @@ type c01SockPlan struct {
 	// pause between segments, so that a frame can be only partly there when the receiver reads its body
 	Cuts    []int `json:"cuts,omitempty"`
 	PauseUs int   `json:"pause_us,omitempty"`
+	// tcp: behind item QuietAfter (a framed item the decoder rejects) the line stays quiet for QuietMs before the
+	// rest of the stream is written: a dropped frame must not leave anything armed that fires later
+	QuietAfter int `json:"quiet_after,omitempty"`
+	QuietMs    int `json:"quiet_ms,omitempty"`
 }
 
 func markerFrame(k int) []byte {
@@ -155,10 +160,14 @@ func c01TCP(p c01SockPlan) *common.Fail {
 	var want []knxnet.Service
 	broken := false
 	var stream []byte
-	for _, h := range p.Items {
+	quietAt := -1
+	for k, h := range p.Items {
 		b := unhex(h)
 		if broken {
 			break
+		}
+		if p.QuietMs > 0 && k == p.QuietAfter+1 {
+			quietAt = len(stream)
 		}
 		if !framingOK(b) {
 			broken = true
@@ -175,6 +184,9 @@ func c01TCP(p c01SockPlan) *common.Fail {
 	}
 	if !broken {
 		// terminate the stream with a marker so that "everything before it was processed" is observable
+		if p.QuietMs > 0 && quietAt < 0 && p.QuietAfter == len(p.Items)-1 {
+			quietAt = len(stream)
+		}
 		stream = append(stream, markerFrame(1)...)
 	}
 	if tc, ok := pc.(*net.TCPConn); ok {
@@ -184,6 +196,7 @@ func c01TCP(p c01SockPlan) *common.Fail {
 	go func() {
 		defer close(wrote)
 		rest := stream
+		off := 0
 		for k := 0; len(rest) > 0; k++ {
 			n := len(rest)
 			if len(p.Cuts) > 0 {
@@ -191,17 +204,24 @@ func c01TCP(p c01SockPlan) *common.Fail {
 					n = c
 				}
 			}
+			if off < quietAt && off+n > quietAt {
+				n = quietAt - off
+			}
 			if _, err := pc.Write(rest[:n]); err != nil {
 				return
 			}
 			rest = rest[n:]
+			off += n
+			if off == quietAt {
+				time.Sleep(time.Duration(p.QuietMs) * time.Millisecond)
+			}
 			if p.PauseUs > 0 && len(rest) > 0 {
 				time.Sleep(time.Duration(p.PauseUs) * time.Microsecond)
 			}
 		}
 	}()
 	var got []knxnet.Service
-	tm := time.NewTimer(limit)
+	tm := time.NewTimer(limit + time.Duration(p.QuietMs)*time.Millisecond)
 	defer tm.Stop()
 	closed := false
 	peerClosed := false
@@ -370,6 +390,26 @@ func genPlanC01Sock(rt *rapid.T) c01SockPlan {
 		}
 		p.Items = append(p.Items, hex.EncodeToString(b))
 	}
+	if p.Proto == "tcp" && rapid.IntRange(0, 19).Draw(rt, "quiet-line") == 0 {
+		// a quiet line behind a dropped frame (seconds: whatever the receiver armed for the frame has time to fire)
+		var cands []int
+		for k, h := range p.Items {
+			b := unhex(h)
+			if !framingOK(b) {
+				break
+			}
+			if _, ok := wellFormed(b); !ok {
+				cands = append(cands, k)
+			}
+		}
+		if len(cands) > 0 {
+			p.QuietAfter = rapid.SampledFrom(cands).Draw(rt, "quiet-after")
+			p.QuietMs = 3300
+			if os.Getenv("VERIF_TIER") == "thorough" {
+				p.QuietMs = rapid.SampledFrom([]int{3300, 5500, 11000}).Draw(rt, "quiet-ms")
+			}
+		}
+	}
 	return p
 }
 
@@ -405,6 +445,9 @@ func TestC01Sock(t *testing.T) {
 		rec.Class(fmt.Sprintf("sock-%s", p.Proto))
 		if brk {
 			rec.Class("sock-tcp-framing-broken")
+		}
+		if p.QuietMs > 0 {
+			rec.Class(fmt.Sprintf("sock-tcp-quiet-line %d ms behind a dropped frame", p.QuietMs))
 		}
 		if bad > 0 {
 			rec.NonTrivial(common.HashJSON(p))
